@@ -16,7 +16,7 @@ LEVEL_TEXT = ('Bounded symbolic verification: every constructor call made by the
               'extended-length bit consistent, prefixes occupy ceil(len/8) octets); a constructor may refuse with an exception but '
               'never return None or bytes the walker rejects.')
 LEVEL_NOTE = 'Shapes are concrete, so length octets are concrete and the symbolic part is that no *value* changes a length or a flag. The walker is trusted (validated on the repository\'s captured messages).'
-LEVEL_ADDED = 'Also: number of prefixes / MP routes walked must equal the number requested; label stacks are parsed to their bottom-of-stack bit; non-ASCII and 300-octet policy names; an ordinary message constructed after messages with > 255-octet attributes in the same process; quick tier = every third C06/C07/C14 shape plus all multi-element, default-route and label shapes. IPv6 flowspec prefixes with octet-aligned offsets (in the format the constructor accepts), NOTIFICATIONs with 0..6000 octets of data.'
+LEVEL_ADDED = 'Also: number of prefixes / MP routes walked must equal the number requested; label stacks are parsed to their bottom-of-stack bit; non-ASCII and 300-octet policy names; an ordinary message constructed after messages with > 255-octet attributes in the same process; quick tier = every third C06/C07/C14 shape plus all multi-element, default-route and label shapes. IPv6 flowspec prefixes with octet-aligned offsets (in the format the constructor accepts), NOTIFICATIONs with 0..6000 octets of data. PMSI tunnel attribute structure (ingress replication identifier 4 or 16 octets) with VXLAN / NVGRE overlays.'
 TECHNIQUE = 'symbolic execution of the constructors (CrossHair+z3) with an independent structural walker as oracle on the symbolic output bytes'
 EXPLANATION = 'C08: intercepted constructor outputs walked structurally.'
 BOUNDS = 'the shape spaces of C06 / C07 / C14 (quick: every third shape) plus construct-only families with symbolic numeric fields; size boundaries 255/256 and 4096 as concrete shapes'
